@@ -349,13 +349,13 @@ fn supervise(prop: &str, tier: Tier, seed: u64) -> i32 {
                     for (name, h) in ph {
                         match probe_seen.get(name) {
                             None => {
-                                probe_seen.insert(name.clone(), (h.clone(), job.variant.clone()));
+                                probe_seen.insert(name.clone(), (h.clone(), format!("{} (worker {})", job.variant, job.shard)));
                             }
                             Some((h0, v0)) => {
                                 probe_comparisons += 1;
                                 if h0 != h {
                                     raw_violations.push(json!({"property": prop, "symptom": "determinism:cross-variant", "variant": job.variant,
-                                        "detail": format!("probe {} gives result hash {} in build variant {} but {} in {}: the result depends on the build or on how long the call takes", name, h, job.variant, h0, v0),
+                                        "detail": format!("probe {} gives result hash {} in build variant {} (worker {}) but {} in {}: the result depends on the build variant, on how long the call takes, or on what the worker process computed before (odd workers start with an f32 call, even ones with f64)", name, h, job.variant, job.shard, h0, v0),
                                         "replay": {"kind": "probe", "name": name}}));
                                 }
                             }
